@@ -39,8 +39,10 @@ void Signal::set()
 #else
   VERIFY(pthread_mutex_lock((pthread_mutex_t*)mdata) == 0);
   signaled = true;
-  VERIFY(pthread_mutex_unlock((pthread_mutex_t*)mdata) == 0);
+  // wake the waiters before the mutex is released: a waiter that sees the flag may destroy this
+  // Signal as soon as it owns the mutex, so nothing may touch the Signal after the unlock
   VERIFY(pthread_cond_broadcast((pthread_cond_t*)cdata) == 0);
+  VERIFY(pthread_mutex_unlock((pthread_mutex_t*)mdata) == 0);
 #endif
 }
 
